@@ -1,5 +1,5 @@
 (* Single executable entry point of the extracted model: opcode :: payload. *)
-From GV Require Import Base.Prelude Lang.Location Lang.Lexer Lang.Visit Lang.VisitWire.
+From GV Require Import Base.Prelude Lang.Location Lang.Lexer Lang.Visit Lang.VisitWire Lang.PrintString.
 
 Definition nat_of (n : N) : nat := N.to_nat n.
 Definition of_nat (n : nat) : N := N.of_nat n.
@@ -29,6 +29,7 @@ Definition run (inp : list N) : list N :=
       let '(l, c) := scan_lines (nat_of line) (nat_of ls) (nat_of pos) s in [of_nat l; of_nat c]
   | 10 :: body => enc_lex (lex body)
   | 11 :: body => enc_lex (coord_lex body)
+  | 12 :: body => print_string body
   | 20 :: r => run_visit r
   | 21 :: r => run_parallel r
   | _ => [999999]
